@@ -13,10 +13,10 @@ PATH = os.path.join(os.path.dirname(os.path.dirname(os.path.dirname(os.path.absp
 def load(pid):
     try:
         with open(PATH) as f:
-            data = json.load(f)
+            entries = list(json.load(f).get('findings', []))
     except FileNotFoundError:
-        return []
-    return [e for e in data.get('findings', []) if e.get('property') == pid and e.get('status') == 'known']
+        entries = []
+    return [e for e in entries if e.get('property') == pid and e.get('status') == 'known']
 
 
 def match(known, violation):
